@@ -2365,8 +2365,24 @@ class BaseTuple(TraitType):
             else:
                 self.default_value_type = DefaultValue.callable
                 default_value = self._get_default_value
+        elif any(
+            child_trait.default_value()[0] != DefaultValue.constant
+            for child_trait in self.types
+        ):
+            # An explicit default for a tuple with members (lists, ...)
+            # that must not be shared between instances: each instance gets
+            # its own validated copy.
+            self._explicit_default_value = default_value
+            self.default_value_type = DefaultValue.callable
+            default_value = self._get_explicit_default_value
 
         super().__init__(default_value, **metadata)
+
+    def _get_explicit_default_value(self, object):
+        # Dynamic default, used when an explicit default was given for a
+        # tuple with at least one child trait requiring a dynamic default.
+        return self.validate(
+            object, "<inner_trait>", self._explicit_default_value)
 
     def _get_default_value(self, object):
         # Dynamic default, used when at least one of the child traits requires
